@@ -29,10 +29,10 @@ type t7 struct {
 	p      *Pkg
 	err    error
 	ntmp   int
-	lower  map[string]int64 // known lower bounds of int variables
-	scalar map[string]bool  // names bound to decoded scalars
-	field  map[string]bool  // names bound to field values (value level: naturals < P once range-checked)
-	errT   string           // Lean error type of the function
+	lower  map[string]int64    // known lower bounds of int variables
+	scalar map[string]bool     // names bound to decoded scalars
+	field  map[string]bool     // names bound to field values (value level: naturals < P once range-checked)
+	errT   string              // Lean error type of the function
 	sigLit map[string][]string // sig := &Signature{r, s, code}
 	recv   string              // builders: name of the receiver
 	sb     strings.Builder
@@ -545,8 +545,8 @@ func (t *t7) block(list []ast.Stmt, k func()) {
 }
 
 // switchStmt: a tagged switch on a value without effects.
-//   * every non-default clause empty, default = error return:   if !(tag == v1 || …) then .err .K else <k>
-//   * otherwise an if / else-if chain; each clause body is followed by the continuation k (duplicated)
+//   - every non-default clause empty, default = error return:   if !(tag == v1 || …) then .err .K else <k>
+//   - otherwise an if / else-if chain; each clause body is followed by the continuation k (duplicated)
 func (t *t7) switchStmt(st *ast.SwitchStmt, k func()) {
 	if st.Init != nil || st.Tag == nil {
 		t.fail(st, "switch form")
